@@ -1,5 +1,6 @@
 import Feox.Fmt.Open
 import Feox.Fmt.ReplayOpen
+import Feox.Fmt.Ttl
 /-!
 # Fmt.OpenCrashed — `recoverImage` of a device that crashed inside a transaction
 
@@ -18,12 +19,12 @@ decode, replay, scan, post-scan retirement, tail release — on an image whose j
 non-empty intent `js.extents`: `img0` represents the tiled disk `d0` the intent was written over, the
 coalesced runs are whole tiles inside the data area, `img` agrees with `img0` on the data area outside the
 runs (anything inside them).  If the markers the masked disk shows are complete on the replayed image and
-the surviving records have pairwise different keys, the open returns `.ok`, the only device writes it
+the surviving records have pairwise different keys and (with TTL on) none of the surviving winners has expired, the open returns `.ok`, the only device writes it
 issues are the replay's (`io1`), the image it leaves is the replayed one and its table is the newest-wins
 fold over exactly the records of `d0` outside the journalled runs. -/
 theorem recover_crashed_image (img0 img : Image) (size : Nat) (o : Opts) (info : Gen → RecMeta) (d0 : Disk) (L : List Rec)
     (md : Meta) (js : JournalState) (co : List (Nat × Nat)) (io1 : List IoEv) (p1 : JPos)
-    (hro : o.readOnly = false) (httl : o.ttlOn = false)
+    (hro : o.readOnly = false)
     (hsize : validDeviceSize size = true) (himg : img.size * BSZ = size) (hnz : imageAllZero img = false)
     (hsig : slice (selectMeta (blockAt img FEOX_METADATA_BLOCK) (blockAt img FEOX_METADATA_BACKUP_BLOCK)) 0 FEOX_SIGNATURE_SIZE = FEOX_SIGNATURE)
     (hmd : Meta.decode (selectMeta (blockAt img FEOX_METADATA_BLOCK) (blockAt img FEOX_METADATA_BACKUP_BLOCK)) = some md)
@@ -36,7 +37,9 @@ theorem recover_crashed_image (img0 img : Image) (size : Nat) (o : Opts) (info :
     (hdisj : co.Pairwise (fun a b => a.1 + a.2 ≤ b.1 ∨ b.1 + b.2 ≤ a.1))
     (hagree : ∀ q, FEOX_DATA_START_BLOCK ≤ q → ¬ inRuns (co.map toRun) q → blockAt img q = blockAt img0 q)
     (hmarks : MarksClean (applyIo img io1) FEOX_DATA_START_BLOCK (size / BSZ) (maskRuns d0 (co.map toRun)))
-    (hnd : ((filterRuns L (co.map toRun)).map (fun r => (info r.2.1).key)).Nodup) :
+    (hnd : ((filterRuns L (co.map toRun)).map (fun r => (info r.2.1).key)).Nodup)
+    (hexp : o.ttlOn = true → ∀ l ∈ (filterRuns L (co.map toRun)).foldl (fun lv r => absorbLive lv (liveOf info r)) [],
+      (decide (l.expiry > 0) && decide (o.now > l.expiry)) = false) :
     ∃ r, (recoverImage img size o).result = .ok r ∧ (recoverImage img size o).io = io1 ∧ r.image = applyIo img io1 ∧
       r.version = md.version ∧
       r.live = (filterRuns L (co.map toRun)).foldl (fun lv r => absorbLive lv (liveOf info r)) [] := by
@@ -82,8 +85,17 @@ theorem recover_crashed_image (img0 img : Image) (size : Nat) (o : Opts) (info :
     unfold recoverImage
     have c1 : (!validDeviceSize size) = false := by rw [hsize]; rfl
     have c2 : (img.size * BSZ != size) = false := by rw [himg]; simp
-    simp only [c1, Bool.false_eq_true, ↓reduceIte, c2, hnz, Bool.false_and, hsig, bne_self_eq_false, hmd, hjs, hro,
-      hio, applyIo, hscan, httl, hret, retireExtentsIo, Bool.not_false, List.isEmpty_nil,
-      List.append_nil, hrel]
+    have hst : { st with retired := [] } = st := by
+      cases st; simp only at hret; subst hret; rfl
+    cases httl : o.ttlOn with
+    | false =>
+      simp only [c1, Bool.false_eq_true, ↓reduceIte, c2, hnz, Bool.false_and, hsig, bne_self_eq_false, hmd, hjs, hro,
+        hio, applyIo, hscan, hret, retireExtentsIo, Bool.not_false, List.isEmpty_nil,
+        List.append_nil, hrel]
+    | true =>
+      have hrm : removeExpired o st = .ok st := removeExpired_none o st (by rw [hgo.2]; exact hexp httl)
+      simp only [c1, Bool.false_eq_true, ↓reduceIte, c2, hnz, Bool.false_and, hsig, bne_self_eq_false, hmd, hjs, hro,
+        hio, applyIo, hscan, hret, retireExtentsIo, Bool.not_false, List.isEmpty_nil, Bool.and_self,
+        List.append_nil, hrel, hst, hrm]
 
 end Feox.Fmt
